@@ -10,7 +10,8 @@
    on disk after the call) is established by the fault-injection runs of
    harness/props/c14.py on the real code, not proved. *)
 From Coq Require Import ZArith List Bool Permutation.
-From CTM Require Import Base.Sx Model.Pool Model.RunEffects Proofs.PoolP Proofs.RunEffectsP Proofs.SelPoolP.
+From CTM Require Import Base.Sx Model.Pool Model.RunEffects Model.ExitCode Proofs.PoolP Proofs.RunEffectsP Proofs.SelPoolP
+  Proofs.ExitCodeP.
 Import ListNotations.
 
 (* For both inspectors (variant = true: winnow_process_dict, false: winnow_process_list),
@@ -45,17 +46,28 @@ Print Assumptions c14_single_failure_reported.
    exit_code_of; the tie forks real workers and compares): a raising worker 1, a killed worker
    minus the signal number, a worker that calls os._exit(k) the low 8 bits of k.  So killed and
    raising workers always have a non-zero code; an exiting worker has one iff k is not a multiple
-   of 256 -- in particular for every k in 1..255, where the code is k itself *)
+   of 256 -- in particular for every k in 1..255, where the code is k itself.
+   Domain (audit 3, item 13; Model/ExitCode.v, every figure observed on real forked workers):
+   - Exits k: k is a C int, -2^31 <= k < 2^31 (exit_arg_ok).  Outside, os._exit raises
+     OverflowError inside the worker and the exit code is 1 (as Raises), whereas
+     exit_code_of (Exits (2^31)) = 0: c14_example_exit_overflow_excluded;
+   - Killed s: s is a signal that TERMINATES a Python worker (terminating_signal: 1..64 without
+     SIGINT 2 -> KeyboardInterrupt, exit code 1; SIGPIPE 13, SIGXFSZ 25, SIGCHLD 17, SIGCONT 18,
+     SIGURG 23, SIGWINCH 28 -> ignored, the worker goes on and exits 0; SIGSTOP 19, SIGTSTP 20,
+     SIGTTIN 21, SIGTTOU 22 -> the worker is stopped and does not terminate).  For the others
+     the exit code is -s, negative.  (The former clause `0 < s -> exit_code_of m < 0` held for
+     every positive s, the ignored and stopping signals included.) *)
 Theorem c14_abnormal_codes : forall m,
   match m with
   | NoFail => exit_code_of m = 0%Z
   | Raises => exit_code_of m <> 0%Z
-  | Exits k => (0 <= exit_code_of m < 256)%Z /\
+  | Exits k => exit_arg_ok k ->
+               (0 <= exit_code_of m < 256)%Z /\
                (k mod 256 <> 0 -> exit_code_of m <> 0)%Z /\
                (0 < k < 256 -> exit_code_of m = k /\ exit_code_of m <> 0)%Z
-  | Killed s => ((0 < s)%Z -> (exit_code_of m < 0)%Z)
+  | Killed s => terminating_signal s = true -> (exit_code_of m = - s /\ exit_code_of m < 0)%Z
   end.
-Proof. exact exit_code_nonzero. Qed.
+Proof. exact exit_code_nonzero_guarded. Qed.
 Print Assumptions c14_abnormal_codes.
 
 (* os._exit(256) cannot be told from a normal exit by ANY parent: the kernel hands out the low 8
@@ -107,7 +119,16 @@ Print Assumptions c14_any_inner_failure.
 (* "no result records" includes the query file: a failing worker of the assignment pool (every
    schedule, every configuration) means run_mapping never reaches the step that appends the
    mapping to the query file's obsm (AppendObsm, tag 8), nor the summary (9), the CSV (7) or
-   the success message (11) *)
+   the success message (11).
+   GIVEN THE STEP ORDER OF RunEffects (Assign -> CSV -> obsm -> summary -> success message,
+   transcribed from from_specified_markers.py:365-435; the content is in the tie): once
+   fail = Some PAssign this is a read-off of the step list of the model (audit 3, item 13: it
+   re-proves by `intros [[] [] [] [] [] [] [] []]; vm_compute; repeat split; reflexivity`).
+   What the theorem adds to the transcription is the composition with Model/Pool.v: EVERY
+   world with a failing worker, under every schedule and bound, makes the assignment step the
+   failing one.  That the real run_mapping executes its steps in this order is what the
+   fault-injection runs of harness/props/c14.py compare (effects observed on the real
+   run_mapping against run_mapping_sx, tag 1404). *)
 Theorem c14_failed_run_leaves_query_untouched : forall (c : cfg) (W : world) (n k : nat),
   (1 <= n)%nat -> (exists w, (w < k)%nat /\ code W w <> 0%Z) ->
   let tr := fst (run_mapping c (assign_fail (stage_result false W n k))) in
@@ -123,26 +144,78 @@ Proof. exact early_failure_no_obsm. Qed.
 Print Assumptions c14_early_failure_no_obsm.
 
 (* the result buffer directory (named result_buffer_XXXXXXXX) is removed on EVERY path of run_mapping:
-   for every configuration and wherever the run fails (or does not), the trace holds
-   MkResultBuf and, later, CleanResultBuf; after a failure the removal comes after the
-   failing step and after the traceback was added to the log and before the re-raise; it
-   comes before the removal of the tmp directory and before each of the log file, the JSON
-   and the HDF5 output is written (when requested).  (Before the repair of finding F9 the
-   removal was the last step of the success path only.) *)
+   for every configuration and wherever the run fails (or does not) - inside `finally`
+   included - the trace holds MkResultBuf and, later, CleanResultBuf; after a failure in the
+   body of `try` the removal comes after the failing step and after the traceback was added
+   to the log and before the re-raise; it comes before the removal of the tmp directory,
+   before each of the log file, the JSON and the HDF5 output that is written, and before a
+   failure inside `finally` (tag 20); and unless a step of `finally` fails every requested
+   output is written.  (Before the repair of finding F9 the removal was the last step of
+   the success path only.) *)
 Theorem c14_result_buffer_removed_on_every_path : forall c fail,
   let tr := fst (run_mapping c fail) in
   has_eff 3 tr = true /\ has_eff 10 tr = true /\ before 3 10 tr = true /\
-  (snd (run_mapping c fail) = true -> before 12 10 tr = true /\ before 13 10 tr = true /\ before 10 19 tr = true) /\
+  (body_raised c fail = true -> before 12 10 tr = true /\ before 13 10 tr = true /\ before 10 19 tr = true) /\
   (has_tmp c = true -> before 10 14 tr = true) /\
-  (has_log_path c = true -> before 10 16 tr = true) /\
-  (has_json c = true -> before 10 17 tr = true) /\
-  (has_hdf5 c = true -> before 10 18 tr = true).
+  (has_eff 16 tr = true -> before 10 16 tr = true) /\
+  (has_eff 17 tr = true -> before 10 17 tr = true) /\
+  (has_eff 18 tr = true -> before 10 18 tr = true) /\
+  (has_eff 20 tr = true -> before 10 20 tr = true) /\
+  ((forall p, fail = Some p -> in_finally p = false) ->
+   (has_log_path c = true -> has_eff 16 tr = true) /\
+   (has_json c = true -> has_eff 17 tr = true) /\
+   (has_hdf5 c = true -> has_eff 18 tr = true)).
 Proof. exact buffer_cleaned_unfold. Qed.
 Print Assumptions c14_result_buffer_removed_on_every_path.
 
 Theorem c14_result_buffer_cleaned : forall c fail, buffer_cleaned c fail = true.
 Proof. exact buffer_cleaned_checked. Qed.
 Print Assumptions c14_result_buffer_cleaned.
+
+(* a failure INSIDE `finally` (audit 3, item 13; fail points PLogFile, PJson, PHdf5 added to
+   the model).  Whenever one of the three writes of the `finally` block is enabled and raises,
+   the call raises AFTER the success message was logged (11 before 20), after the CSV, the
+   obsm of the query file and the summary were written (when requested) and after the result
+   buffer and the tmp directory were removed; no traceback is added to the log and nothing
+   is re-raised (finally_failed_trace).  Such a trace does NOT satisfy prop_trace_ok (a success
+   message in the log of a call that raises).
+   Observed on the real run_mapping (run here; output_path and log_path are probed before
+   `try`, hdf5_output_path is not): with hdf5_output_path = <dir that does not exist>/result.h5
+   and obsm_key='cdm' the call raises FileNotFoundError "Unable to synchronously create file",
+   the query file's obsm went from [] to ['cdm'], log.txt holds "MAPPING FROM SPECIFIED
+   MARKERS RAN SUCCESSFULLY" and no "an ERROR occurred", result.csv and result.json (keys
+   results, marker_genes, taxonomy_tree, n_unmapped_genes, config, log, metadata; all 6 cells)
+   are complete, tmp is empty.  The correspondence check drives this case as fail point 9
+   (harness/props/c14.py other_fail_points).
+   IS THIS A VIOLATION OF C14?  No.  C14: "If any worker process of any parallel stage
+   terminates abnormally ... the call that started it raises an error.  A mapping run IN THAT
+   SITUATION writes no result records, no CSV and no success message, though it still writes
+   its log"; its quantifier is every worker of every parallel stage x failure mode x crash
+   point.  Here no worker failed: every worker exited 0, the mapping is complete and correct,
+   and what fails is the caller's HDF5 destination.  The call does raise (nothing "passes as
+   success" to the caller), and the records on disk are not partial.  So the statement is kept
+   as a description of what the code does, not as a `_refuted` theorem; it is reported to the
+   lead as an observation (hdf5_output_path is not probed like the two other paths, so a run
+   of hours can end in a raise after everything else was written), outside C14. *)
+Theorem c14_failure_in_finally_after_success : forall c p,
+  fin_enabled c p = true ->
+  finally_failed_trace c (fst (run_mapping c (Some p))) (snd (run_mapping c (Some p))) = true /\
+  prop_trace_ok c (fst (run_mapping c (Some p))) (snd (run_mapping c (Some p))) = false.
+Proof. exact finally_failure_after_success. Qed.
+Print Assumptions c14_failure_in_finally_after_success.
+
+(* the HDF5 write in readable form: the call raises, the success message is logged, no
+   traceback, no re-raise, no HDF5 file; obsm appended, CSV, log file and the JSON with the
+   complete results written *)
+Theorem c14_hdf5_failure_effects : forall c, has_hdf5 c = true ->
+  let tr := fst (run_mapping c (Some PHdf5)) in
+  snd (run_mapping c (Some PHdf5)) = true /\
+  has_eff 11 tr = true /\ has_eff 13 tr = false /\ has_eff 19 tr = false /\ has_eff 18 tr = false /\
+  (has_obsm c = true -> has_eff 8 tr = true) /\ (has_csv c = true -> has_eff 7 tr = true) /\
+  (has_log_path c = true -> has_eff 16 tr = true) /\
+  (has_json c = true -> exists ks, json_keys tr = Some ks /\ has_key KResults ks = true).
+Proof. exact hdf5_failure_unfold. Qed.
+Print Assumptions c14_hdf5_failure_effects.
 
 (* the other stages (and the assignment stage itself).  GIVEN THE TRANSCRIPTION of the six stages
    in Model/Pool.v (stats_stage ... mapping_stage: which effects come before each pool, after the
@@ -254,7 +327,9 @@ Print Assumptions c14_selection_duplicate_parent_refuted.
    executable statement of the property's own clauses (raises; no success message; log file written
    after the traceback was added; JSON / HDF5 hold only what the finally block adds), the predicate
    the harness evaluates on the effects OBSERVED on the real run_mapping.  A finite check of the
-   transcription in Model/RunEffects.v (256 configurations x 6 fail points).
+   transcription in Model/RunEffects.v (256 configurations x 6 fail points; at the three fail
+   points inside `finally` _run_mapping has returned and the hypothesis is false:
+   c14_failure_in_finally_after_success).
    (Until the audit this name stood for `failed_trace_ok c tr r = true -> prop_trace_ok c tr r = true`,
    which is a projection: failed_trace_ok is DEFINED as prop_trace_ok && ...; that remains as
    Proofs/RunEffectsP.v failed_implies_prop, labelled as what it is.) *)
@@ -284,6 +359,22 @@ Example c14_example_mapping :
   json_keys (fst (run_mapping c (Some PAssign))) = Some [KConfig; KLog; KMetadata] /\
   map eff_tag (fst (run_mapping c None)) = [1; 2; 3; 4; 5; 6; 7; 11; 10; 14; 15; 16; 17; 18]%Z /\
   clean_run_ok c = true.
+Proof. vm_compute. repeat split; reflexivity. Qed.
+
+(* the configuration of the real run quoted at c14_failure_in_finally_after_success (tmp, CSV,
+   obsm, log, JSON, HDF5): the hypothesis fin_enabled holds and the trace is
+   ... Assign, CSV, obsm, success message, buffer and tmp removed, log file, JSON, then the
+   failing HDF5 write (20) - no 12, 13, 18, 19 *)
+Example c14_example_hdf5_failure :
+  let c := {| has_tmp := true; has_csv := true; has_obsm := true; has_summary := false; has_log_path := true;
+              has_json := true; has_hdf5 := true; has_gene_map := false |} in
+  fin_enabled c PHdf5 = true /\
+  map eff_tag (fst (run_mapping c (Some PHdf5))) = [1; 2; 3; 4; 5; 6; 7; 8; 11; 10; 14; 15; 16; 17; 20]%Z /\
+  snd (run_mapping c (Some PHdf5)) = true /\
+  json_keys (fst (run_mapping c (Some PHdf5))) =
+    Some [KResults; KMarkerGenes; KTaxonomyTree; KNUnmapped; KConfig; KLog; KMetadata] /\
+  (* a log file that cannot be written: nothing at all is written at the outputs *)
+  map eff_tag (fst (run_mapping c (Some PLogFile))) = [1; 2; 3; 4; 5; 6; 7; 8; 11; 10; 14; 15; 20]%Z.
 Proof. vm_compute. repeat split; reflexivity. Qed.
 
 Example c14_example_stage :
@@ -327,6 +418,26 @@ Example c14_example_final_drain :
   let r := run_selection_pool W 2 [] [0%nat] [] in
   fst r = POk /\ ss_started (snd r) = [0%nat] /\ ss_completed (snd r) = [] /\ ss_running (snd r) = [].
 Proof. exact final_drain_does_not_complete. Qed.
+
+(* the domain of c14_abnormal_codes.  os._exit: 2^31 and -2^31-1 are excluded - there the real
+   worker dies of OverflowError with exit code 1 while the model says 0 -, 2^31-1 (-> 255) and
+   -2^31 (-> 0) are inside, as observed.  Signals: KILL 9, TERM 15, USR1 10 (the ones the tie
+   sends), SEGV 11 and the real-time signal 64 terminate; CHLD 17, CONT 18, STOP 19, URG 23,
+   WINCH 28, INT 2 do not, although exit_code_of (Killed 17) = -17 *)
+Example c14_example_exit_overflow_excluded :
+  ~ exit_arg_ok (2 ^ 31) /\ exit_code_of (Exits (2 ^ 31)) = 0%Z /\
+  exit_arg_ok (2 ^ 31 - 1) /\ exit_code_of (Exits (2 ^ 31 - 1)) = 255%Z /\
+  exit_arg_ok (- 2 ^ 31) /\ exit_code_of (Exits (- 2 ^ 31)) = 0%Z /\
+  ~ exit_arg_ok (- 2 ^ 31 - 1).
+Proof. exact exit_overflow_excluded. Qed.
+Example c14_example_signals :
+  terminating_signal 9 = true /\ terminating_signal 15 = true /\ terminating_signal 10 = true /\
+  terminating_signal 11 = true /\ terminating_signal 64 = true /\
+  terminating_signal 17 = false /\ terminating_signal 18 = false /\ terminating_signal 19 = false /\
+  terminating_signal 23 = false /\ terminating_signal 28 = false /\ terminating_signal 2 = false /\
+  terminating_signal 0 = false /\ terminating_signal 65 = false /\
+  exit_code_of (Killed 17) = (-17)%Z.
+Proof. exact signal_examples. Qed.
 
 (* the excluded input of c14_abnormal_codes is exactly where the parent sees nothing: a pool whose
    only worker calls os._exit(256) drains cleanly; with os._exit(255) it raises *)
